@@ -83,6 +83,7 @@ MonMem(m, ev) ==
         <<~ev.panic /\ ev.r # x.r, ck \o ".result">>,
         <<~ev.panic /\ ev.out # x.out, ck \o ".output">>,
         <<~ev.panic /\ ev.alt # <<>>, ck \o ".alignment-dependent">>,
+        <<ev.fillalt # 0, "C18.mem-fill-dependent">>,
         <<~ev.panic /\ ev.fn \in KeepsBeyond /\ ~ev.beyond, "C15.modified-beyond-written">>,
         <<~ev.panic /\ ev.fn \in StrFns /\ ~Utf8WellFormed(ev.post), "C05.mem-str-invalid">>,
         <<~ev.panic /\ ev.fn \in CowFns /\ IsAscii(inp) /\ ~ev.borrowed, "C15.borrow-ascii">>,
